@@ -49,6 +49,8 @@ type arWorld struct {
 	preimage  []byte
 	seq       int
 	tssPub    string
+	tssKey     []byte        // private key of the bridge's TSS key once the history has rotated it (nil: arTssPriv)
+	legacyKeys []arLegacyKey // fresh legacy keys used before (s_autoreceive_proofs.go)
 }
 
 const (
@@ -342,6 +344,14 @@ func (w *arWorld) boundaryArg(t abi.Type, old interface{}) interface{} {
 	R := w.r.c.R
 	switch t.T {
 	case abi.UintTy, abi.IntTy:
+		if R.Intn(5) == 0 { // a whole multiple of a unit whose quotient wraps into the valid range when it is narrowed (s_autoreceive_sweep.go)
+			fam := arAlignedFamily(arBigOf(old), false)
+			for k := 0; k < 8; k++ {
+				if x, ok := arIntArg(t, fam[R.Intn(len(fam))]); ok {
+					return x
+				}
+			}
+		}
 		b := arBoundaryInts[R.Intn(len(arBoundaryInts))]
 		if t.Kind == reflect.Ptr {
 			if b.BitLen() > 256 {
@@ -486,6 +496,9 @@ func (w *arWorld) boundary(to types.Address, method string) *arSpec {
 			s.amount = new(big.Int).Set(arBoundaryInts[R.Intn(len(arBoundaryInts))])
 		}
 	}
+	if R.Intn(2) == 0 { // the proof made again for the changed arguments
+		w.reprove(to, method, s, nil)
+	}
 	return s
 }
 
@@ -550,6 +563,11 @@ func (w *arWorld) semantic(to types.Address, method string) *arSpec {
 				s.args[i] = w.boundaryArg(m.Inputs[i].Type, s.args[i])
 			}
 		}
+	}
+	// a call that carries a proof: mostly the proof is made again for the changed sender / arguments (a key with or without
+	// entry), so that the changed call is accepted and received past the proof check
+	if R.Intn(4) != 0 {
+		w.reprove(to, method, s, nil)
 	}
 	return s
 }
@@ -953,6 +971,10 @@ func (w *arWorld) runScenario(name string) {
 	}
 	if name == "degenerate-epochs" {
 		w.runDegenerateEpochs()
+		return
+	}
+	if name == "proof-states" {
+		w.runProofStates()
 		return
 	}
 	switch name {
